@@ -336,21 +336,34 @@ fn write_replay(
     path.to_string_lossy().into_owned()
 }
 
+thread_local! {
+    /// (file, length of the longest line written so far)
+    static TRACE_FILE: std::cell::RefCell<Option<(std::fs::File, usize)>> = const { std::cell::RefCell::new(None) };
+}
+
+/// Records the case about to be evaluated, so that the driver can name it if
+/// the process dies.  Only the latest case is kept (the file is rewritten);
+/// no fsync: data handed to the kernel survives the death of the process.
 fn trace_case(ctx: &Ctx, check: &str, case: &impl Serialize) {
     if let Some(p) = &ctx.trace {
-        use std::io::Write;
-        if let Ok(mut f) = std::fs::OpenOptions::new()
-            .create(true)
-            .append(true)
-            .open(p)
-        {
-            let _ = writeln!(
-                f,
-                "{}",
-                json!({"check": check, "case": case}).to_string()
-            );
-            let _ = f.sync_data();
-        }
+        use std::os::unix::fs::FileExt;
+        TRACE_FILE.with(|cell| {
+            let mut slot = cell.borrow_mut();
+            if slot.is_none() {
+                *slot = std::fs::OpenOptions::new().create(true).write(true).truncate(true).open(p).ok().map(|f| (f, 0));
+            }
+            if let Some((f, longest)) = slot.as_mut() {
+                // one positioned write per case: the line, padded with blanks
+                // over whatever a longer earlier line left behind
+                let mut line = json!({"check": check, "case": case}).to_string();
+                while line.len() < *longest {
+                    line.push(' ');
+                }
+                *longest = line.len();
+                line.push('\n');
+                let _ = f.write_all_at(line.as_bytes(), 0);
+            }
+        });
     }
 }
 
